@@ -14,7 +14,7 @@ import z3
 
 from lib import runner
 from symx.engine import Verdict
-from symx.kit import MethodSet, class_rule, levels_mechanism
+from symx.kit import MethodSet, class_rule, levels_mechanism, full_outcome
 from symx.world import World
 
 PID = "C07"
@@ -242,11 +242,55 @@ def make_run_dep(W, shape, known_active=None):
     return run
 
 
+_FEWMS = {}
+
+
+def make_run_fewer(W, shape):
+    """a method delegates with FEWER arguments than it takes itself (call_next(x) / F.next(x) from f(x, y), or from g(x, *, k)): it is not
+    applicable to the shorter call, so the step is a fresh call f(x) -- compared with that call on a fresh function with the same methods"""
+    from ovld import Ovld
+
+    kind, t1, t2, viakw = shape["fewer"]           # delegation kind, types of the two one-argument methods, caller takes y | keyword k
+    key = repr(shape["fewer"])
+    ms = _FEWMS.get(key)
+    if ms is None:
+        def term(t):
+            return ("obj",) if t == shape["n"] else ("K", t)
+        call = {"next": "call_next(x)", "fnext": "F.next(x)"}[kind]
+        caller = (dict(pos=[("x", ("K", 0), False)], kw=[("k", ("obj",), False)], body=f"return ('via', {call})") if viakw
+                  else dict(pos=[("x", ("K", 0), False), ("y", ("obj",), False)], body=f"return ('via', {call})"))
+        ms = _FEWMS[key] = MethodSet([caller, dict(pos=[("x", term(t1), False)], body="return ('ret', 1)"),
+                                      dict(pos=[("x", term(t2), False)], body="return ('ret', 2)")])
+
+    def run(ctx):
+        def mk():
+            hs, LOG, ns = ms.instantiate(W)
+            ov = Ovld()
+            for m in range(3):
+                ov.register(hs[m], priority=0)
+            ns["F"] = ov.dispatch
+            return ov, LOG
+        ov, LOG = mk()
+        a, b = W.inst[0], object()
+        got = full_outcome((lambda: ov.dispatch(a, k=b)) if viakw else (lambda: ov.dispatch(a, b)), LOG)
+        ref, LOG2 = mk()
+        fresh = full_outcome(lambda: ref.dispatch(a), LOG2)
+        exp_chain = [0] + fresh[0]
+        ok = got[0] == exp_chain and (got[1][0] == fresh[1][0]) and (got[1][0] != "ret" or got[1][1] == "('via', " + fresh[1][1] + ")")
+        info = dict(family="delegation with fewer arguments", caller=("f(x: K0, *, k)" if viakw else "f(x: K0, y)"), delegation=kind,
+                    one_argument_methods=[t1, t2], got=got, fresh_call_f_x=fresh)
+        return Verdict(ok, (), info, [got[1][0]], nontrivial=len(got[0]) >= 2)
+
+    return run
+
+
 def make_run(W, shape, known_active=None):
     from ovld import Ovld
 
     if shape.get("depkinds"):
         return make_run_dep(W, shape, known_active)
+    if shape.get("fewer"):
+        return make_run_fewer(W, shape)
 
     if known_active is None:
         known_active = runner.active_known_ids(PID)
@@ -457,17 +501,19 @@ def gen_shapes(tier, seed):
     for mt in itertools.product(range(n + 1), repeat=3):
         for ks in itertools.product(["ret", "next", "fnext"], repeat=3):
             fam_fact.append(dict(n=n, factory=True, methods=[dict(pos=[t], kind=k) for t, k in zip(mt, ks)], args=[0]))
+    fam_few = [dict(n=n, fewer=[kind, t1, t2, viakw]) for kind in ("next", "fnext") for t1 in range(n + 1) for t2 in range(n + 1) if t1 != t2
+               for viakw in (False, True)]
     fam_cls = []
     for mt in itertools.product(range(n + 1), repeat=3):
         for ks in itertools.product(["ret", "next", "fnext"], repeat=3):
             fam_cls.append(dict(n=n, classargs=True, methods=[dict(pos=[t], kind=k) for t, k in zip(mt, ks)], args=[0]))
-    total = len(shapes) + len(fam_fwd) + len(fam2) + len(fam4) + len(fam_self) + len(fam_fact) + len(fam_cls)
+    total = len(shapes) + len(fam_fwd) + len(fam2) + len(fam4) + len(fam_self) + len(fam_fact) + len(fam_cls) + len(fam_few)
     for f in (shapes, fam_fwd, fam2, fam4, fam_self, fam_fact, fam_cls):
         rng.shuffle(f)
     if tier == "quick":
-        out = shapes[:230] + fam_fwd[:110] + fam2[:90] + fam4[:40] + fam_self[:70] + fam_fact[:70] + fam_dep + fam_cls[:70]
+        out = shapes[:230] + fam_fwd[:110] + fam2[:90] + fam4[:40] + fam_self[:70] + fam_fact[:70] + fam_dep + fam_cls[:70] + fam_few
     else:
-        out = shapes + fam_fwd + fam2 + fam4 + fam_self + fam_fact + fam_dep + fam_cls
+        out = shapes + fam_fwd + fam2 + fam4 + fam_self + fam_fact + fam_dep + fam_cls + fam_few
     return out, total, True
 
 
